@@ -83,6 +83,19 @@ class CallMixin:
             return [(st, v)]
         if n in ("all", "any") and len(e.args) == 1 and isinstance(e.args[0], ast.GeneratorExp):
             return [(st, mk_bool(self.quantifier(n, e.args[0], st)))]
+        if n == "typeof_is_cls":
+            o = self.ev1(e.args[0], st)
+            if o.ty.kind == "opt":
+                o = opt_inner(o)
+            c = self.ev1(e.args[1], st)
+            return [(st, mk_bool(smt.Eq(self.typeof(o.ts[0]), c.ts[0])))]
+        if n == "cls_has":
+            c = self.ev1(e.args[0], st)
+            attr = e.args[1].value
+            return [(st, mk_bool(self.truthy(SV(TANY, [self.uf("clsattr_" + attr, [c.ts[0]], U)]))))]
+        if n == "cls_issub":
+            c = self.ev1(e.args[0], st)
+            return [(st, mk_bool(self.issub_term(c.ts[0], e.args[1].value)))]
         if n == "nonnull":
             v = self.ev1(e.args[0], st)
             return [(st, opt_inner(v) if v.ty.kind == "opt" else v)]
@@ -213,6 +226,15 @@ class CallMixin:
             return
         self.defined_specs.add(n)
         sp = C.SPECS[n]
+        if sp["body"] is None:
+            argsorts = [s for _, pt in sp["params"] for s in flatten(parse_type(pt))]
+            sorts = flatten(parse_type(sp["ret"]))
+            if len(sorts) == 1:
+                self.ctx.fun("spec_" + n, argsorts, sorts[0])
+            else:
+                for k, s in enumerate(sorts):
+                    self.ctx.fun("spec_%s_%d" % (n, k), argsorts, s)
+            return
         st = State()
         params = []
         for pn, pt in sp["params"]:
@@ -247,7 +269,8 @@ class CallMixin:
             if isinstance(e.func, ast.Attribute) and con.types and list(con.types)[0] in ("self", "cls"):
                 for s, r in self.ev(e.func.value, st, exc):
                     for s2, pos, kw in self.eval_args(e, s, exc):
-                        out += self.apply_contract(con, [r] + pos, kw, s2, exc, site=src)
+                        args = pos if r.ty.kind == "cls" else [r] + pos     # Class.method(self, ...) is unbound
+                        out += self.apply_contract(con, args, kw, s2, exc, site=src)
                 return out
             for s, pos, kw in self.eval_args(e, st, exc):
                 out += self.apply_contract(con, pos, kw, s, exc, site=src)
@@ -341,22 +364,49 @@ class CallMixin:
         fid = "%s:%s" % (self.found.mod, n)
         if fid in C.CONTRACTS:
             return C.CONTRACTS[fid]
-        cands = [c for k, c in C.CONTRACTS.items() if k.split(":")[1] == n]
+        cands = [c for k, c in C.CONTRACTS.items() if ":" in k and k.split(":")[1] == n]
         if len(cands) == 1:
             return cands[0]
         return None
 
-    def find_method(self, cls, name, want_property=False):
+    def find_method(self, cls, name, want_property=False, args=None):
+        """contract of cls.name (searching the bases); among variants (id@variant) the first whose
+        declared parameter types fit the argument kinds is chosen"""
         if cls is None:
             return None
         for k in self.mro(cls):
-            for fid, c in C.CONTRACTS.items():
-                if fid.split(":")[1] == "%s.%s" % (k, name):
-                    is_prop = c.prop
-                    if want_property and not is_prop:
-                        return None
+            cands = [c for fid, c in C.CONTRACTS.items()
+                     if ":" in fid and fid.split(":")[1].split("@")[0] == "%s.%s" % (k, name)]
+            if not cands:
+                continue
+            if want_property and not cands[0].prop:
+                return None
+            if len(cands) == 1 or args is None:
+                return cands[0]
+            for c in cands:
+                if self.variant_fits(c, args):
                     return c
+            return cands[0]
         return None
+
+    def variant_fits(self, con, args):
+        params = [p for p, _ in self.callee_params(con)]
+        for p, a in zip(params, args):
+            decl = con.types.get(p)
+            if decl is None:
+                continue
+            d = parse_type(decl)
+            ak = a.ty.args[0].kind if a.ty.kind == "opt" else a.ty.kind
+            dk = d.args[0].kind if d.kind == "opt" else d.kind
+            if dk == "any":
+                continue
+            if dk == "str" and ak not in ("str", "tstr"):
+                return False
+            if dk == "ref" and ak not in ("ref", "excobj"):
+                return False
+            if dk in ("int", "bool") and ak not in ("int", "bool"):
+                return False
+        return True
 
     def is_static(self, con):
         try:
@@ -572,7 +622,7 @@ class CallMixin:
     # ------------------------------------------------------------ constructors
     def construct(self, n, pos, kw, st, exc):
         if n in self.bases and self.is_subclass_name(n, "BaseException"):
-            con = self.find_method(n, "__init__")
+            con = self.find_method(n, "__init__", args=[NONE] + list(pos))
             if con is not None:
                 obj = self.alloc(st, n)
                 res = self.apply_contract(con, [obj] + pos, kw, st, exc, site=n + ".__init__")
